@@ -210,7 +210,7 @@ def asciiDec (b : Bytes) : Except Err Str :=
   if b.all (·.toNat < 128) then .ok (b.map fun x => Char.ofNat x.toNat) else .error .unicode
 def ascii : Encoding := ⟨"ascii", asciiEnc, asciiDec⟩
 
-def utf8Enc (s : Str) : Except Err Bytes := .ok (String.ofList s).toUTF8.toList
+def utf8Enc (s : Str) : Except Err Bytes := .ok (String.ofList s).toUTF8.data.toList
 def utf8Dec (b : Bytes) : Except Err Str :=
   match String.fromUTF8? (ByteArray.mk b.toArray) with
   | some s => .ok s.toList
